@@ -32,6 +32,9 @@ var c08Policies = []string{"noeviction", "allkeys-lru", "allkeys-lfu", "volatile
 
 func genC08(r *Rng, tier string, idx int) *Plan {
 	p := &Plan{Knobs: map[string]int64{}, SKnobs: map[string]string{}}
+	if idx%4 == 3 {
+		return genC08Conc(r, tier, p)
+	}
 	p.SKnobs["policy"] = c08Policies[idx%len(c08Policies)]
 	p.Profile = p.SKnobs["policy"]
 	p.Knobs["fit"] = int64(r.Range(3, 12))
@@ -79,6 +82,9 @@ type c08Acc struct {
 }
 
 func runC08(t *testing.T, p *Plan) *Outcome {
+	if p.Profile == "conc" {
+		return runC08Conc(t, p)
+	}
 	o := &Outcome{Trivial: true}
 	var class []string
 	fail := func(sig, detail string) {
